@@ -126,21 +126,31 @@ func (store *fileStore) Reset() error {
 	if err := store.Close(); err != nil {
 		return errors.Wrap(err, "close")
 	}
+	verifPoint("remove<", nil, store.bodyFname)
 	if err := removeFile(store.bodyFname); err != nil {
 		return err
 	}
+	verifPoint("remove>", nil, store.bodyFname)
+	verifPoint("remove<", nil, store.headerFname)
 	if err := removeFile(store.headerFname); err != nil {
 		return err
 	}
+	verifPoint("remove>", nil, store.headerFname)
+	verifPoint("remove<", nil, store.sessionFname)
 	if err := removeFile(store.sessionFname); err != nil {
 		return err
 	}
+	verifPoint("remove>", nil, store.sessionFname)
+	verifPoint("remove<", nil, store.senderSeqNumsFname)
 	if err := removeFile(store.senderSeqNumsFname); err != nil {
 		return err
 	}
+	verifPoint("remove>", nil, store.senderSeqNumsFname)
+	verifPoint("remove<", nil, store.targetSeqNumsFname)
 	if err := removeFile(store.targetSeqNumsFname); err != nil {
 		return err
 	}
+	verifPoint("remove>", nil, store.targetSeqNumsFname)
 	return store.Refresh()
 }
 
@@ -160,21 +170,31 @@ func (store *fileStore) Refresh() (err error) {
 		return err
 	}
 
+	verifPoint("open<", nil, store.bodyFname)
 	if store.bodyFile, err = openOrCreateFile(store.bodyFname, 0660); err != nil {
 		return err
 	}
+	verifPoint("open>", nil, store.bodyFname)
+	verifPoint("open<", nil, store.headerFname)
 	if store.headerFile, err = openOrCreateFile(store.headerFname, 0660); err != nil {
 		return err
 	}
+	verifPoint("open>", nil, store.headerFname)
+	verifPoint("open<", nil, store.sessionFname)
 	if store.sessionFile, err = openOrCreateFile(store.sessionFname, 0660); err != nil {
 		return err
 	}
+	verifPoint("open>", nil, store.sessionFname)
+	verifPoint("open<", nil, store.senderSeqNumsFname)
 	if store.senderSeqNumsFile, err = openOrCreateFile(store.senderSeqNumsFname, 0660); err != nil {
 		return err
 	}
+	verifPoint("open>", nil, store.senderSeqNumsFname)
+	verifPoint("open<", nil, store.targetSeqNumsFname)
 	if store.targetSeqNumsFile, err = openOrCreateFile(store.targetSeqNumsFname, 0660); err != nil {
 		return err
 	}
+	verifPoint("open>", nil, store.targetSeqNumsFname)
 
 	if !creationTimePopulated {
 		if err := store.setSession(); err != nil {
@@ -232,13 +252,17 @@ func (store *fileStore) setSession() error {
 	if err != nil {
 		return fmt.Errorf("unable to marshal session time to file: %s: %s", store.sessionFname, err.Error())
 	}
+	verifPoint("write<", store.sessionFile, store.sessionFname)
 	if _, err := store.sessionFile.Write(data); err != nil {
 		return fmt.Errorf("unable to write to file: %s: %s", store.sessionFname, err.Error())
 	}
+	verifPoint("write>", store.sessionFile, store.sessionFname)
 	if store.fileSync {
+		verifPoint("sync<", store.sessionFile, store.sessionFname)
 		if err := store.sessionFile.Sync(); err != nil {
 			return fmt.Errorf("unable to flush file: %s: %s", store.sessionFname, err.Error())
 		}
+		verifPoint("sync>", store.sessionFile, store.sessionFname)
 	}
 	return nil
 }
@@ -249,13 +273,17 @@ func (store *fileStore) setSeqNum(f *os.File, seqNum int) error {
 	if _, err := f.Seek(0, io.SeekStart); err != nil {
 		return fmt.Errorf("unable to rewind file: %s: %s", f.Name(), err.Error())
 	}
+	verifPoint("write<", f, "")
 	if _, err := fmt.Fprintf(f, "%019d", seqNum); err != nil {
 		return fmt.Errorf("unable to write to file: %s: %s", f.Name(), err.Error())
 	}
+	verifPoint("write>", f, "")
 	if store.fileSync {
+		verifPoint("sync<", f, "")
 		if err := f.Sync(); err != nil {
 			return fmt.Errorf("unable to flush file: %s: %s", f.Name(), err.Error())
 		}
+		verifPoint("sync>", f, "")
 	}
 	return nil
 }
@@ -324,12 +352,16 @@ func (store *fileStore) SaveMessage(seqNum int, msg []byte) error {
 	// The message bytes go to the body file before the index line that points at them, so that an
 	// interrupted save can never leave an index line whose bytes are missing (or are later filled in by
 	// the next message).
+	verifPoint("write<", store.bodyFile, store.bodyFname)
 	if _, err := store.bodyFile.Write(msg); err != nil {
 		return fmt.Errorf("unable to write to file: %s: %s", store.bodyFname, err.Error())
 	}
+	verifPoint("write>", store.bodyFile, store.bodyFname)
+	verifPoint("write<", store.headerFile, store.headerFname)
 	if _, err := fmt.Fprintf(store.headerFile, "%d,%d,%d\n", seqNum, offset, len(msg)); err != nil {
 		return fmt.Errorf("unable to write to file: %s: %s", store.headerFname, err.Error())
 	}
+	verifPoint("write>", store.headerFile, store.headerFname)
 	if store.fileSync {
 		return store.syncBodyAndHeaderFilesLocked()
 	}
@@ -345,11 +377,15 @@ func (store *fileStore) SaveMessageAndIncrNextSenderMsgSeqNum(seqNum int, msg []
 }
 
 func (store *fileStore) syncBodyAndHeaderFilesLocked() error {
+	verifPoint("sync<", store.bodyFile, store.bodyFname)
+	verifPoint("sync<", store.headerFile, store.headerFname)
 	if err := store.bodyFile.Sync(); err != nil {
 		return fmt.Errorf("unable to flush file: %s: %s", store.bodyFname, err.Error())
 	} else if err = store.headerFile.Sync(); err != nil {
 		return fmt.Errorf("unable to flush file: %s: %s", store.headerFname, err.Error())
 	}
+	verifPoint("sync>", store.bodyFile, store.bodyFname)
+	verifPoint("sync>", store.headerFile, store.headerFname)
 	return nil
 }
 
@@ -363,15 +399,19 @@ func (store *fileStore) IterateMessages(beginSeqNum, endSeqNum int, cb func([]by
 	}
 
 	// Open a read only view to body and header file
+	verifPoint("open<", nil, store.bodyFname)
 	bodyFile, err := openOrCreateFile(store.bodyFname, 0440)
 	if err != nil {
 		return err
 	}
+	verifPoint("open>", nil, store.bodyFname)
 	defer func() { _ = bodyFile.Close() }()
+	verifPoint("open<", nil, store.headerFname)
 	headerFile, err := openOrCreateFile(store.headerFname, 0440)
 	if err != nil {
 		return err
 	}
+	verifPoint("open>", nil, store.headerFname)
 	defer func() { _ = headerFile.Close() }()
 	if _, err = headerFile.Seek(0, io.SeekStart); err != nil {
 		return fmt.Errorf("unable to seek to start of file: %s: %s", store.headerFname, err.Error())
@@ -415,21 +455,31 @@ func (store *fileStore) GetMessages(beginSeqNum, endSeqNum int) ([][]byte, error
 
 // Close closes the store's files.
 func (store *fileStore) Close() error {
+	verifPoint("sync<", store.bodyFile, store.bodyFname)
 	if err := closeSyncFile(store.bodyFile); err != nil {
 		return err
 	}
+	verifPoint("sync>", store.bodyFile, store.bodyFname)
+	verifPoint("sync<", store.headerFile, store.headerFname)
 	if err := closeSyncFile(store.headerFile); err != nil {
 		return err
 	}
+	verifPoint("sync>", store.headerFile, store.headerFname)
+	verifPoint("sync<", store.sessionFile, store.sessionFname)
 	if err := closeSyncFile(store.sessionFile); err != nil {
 		return err
 	}
+	verifPoint("sync>", store.sessionFile, store.sessionFname)
+	verifPoint("sync<", store.senderSeqNumsFile, store.senderSeqNumsFname)
 	if err := closeSyncFile(store.senderSeqNumsFile); err != nil {
 		return err
 	}
+	verifPoint("sync>", store.senderSeqNumsFile, store.senderSeqNumsFname)
+	verifPoint("sync<", store.targetSeqNumsFile, store.targetSeqNumsFname)
 	if err := closeSyncFile(store.targetSeqNumsFile); err != nil {
 		return err
 	}
+	verifPoint("sync>", store.targetSeqNumsFile, store.targetSeqNumsFname)
 
 	store.bodyFile = nil
 	store.headerFile = nil
